@@ -11,7 +11,8 @@ LEVEL_TEXT = ('Bounded-exhaustive runtime check: every Linen filter form up to n
               'ordered pairs x 3 operators x 4 names, all filter lists up to length 3, and NNX filter expressions up to the '
               'same depth (plus list/tuple members nested inside Any/All/Not) through all eight split/filter entry points, each compared with an independent membership oracle. '
               'Filters are finite/co-finite sets, so small scope is decisive for the algebra; exploration is the honest level.'
-              ' Round f: nnx.pop on a model with tied Variables, nnx.variables among the partition APIs.')
+              ' Round f: nnx.pop on a model with tied Variables, nnx.variables among the partition APIs.'
+              ' Round g: a type filter naming the class of the leaf object (nnx.VariableState), misplaced catch-all filters in nnx.pop.')
 LEVEL_NOTE = 'Trusts the 10-line reference evaluators in vf/props/c14.py and the JAX compat aliases (vf/compat.py).'
 TECHNIQUE = 'runtime monitoring: semantic membership oracle over bounded-exhaustive filter forms on the real filter functions'
 RULE = ('Linen: every filter form of nesting depth <= D (D=2 quick, 4 thorough) over names {a,b,ab} (ab contains the others as substrings) '
